@@ -36,6 +36,26 @@ sum_i (w_i s_i + q_i s_i^2/2) + a + a c/2 + ..., a = sum_i h_i Re u_i^H W1 v_i, 
 values.  Reference: the same closed form applied to the Jordan-Wielandt matrix [[0, A], [A^H, 0]] (eigenpairs (s_i, [u_i; v_i]/sqrt 2));
 second order by autograd through torch.linalg.svd (all singular values simple) or the finite-difference scheme above.
 
+Repeated backward passes (eig, svd, degen_opts; half of the cases): the graph of ONE forward call is kept (retain_graph=True) and 1..3 further
+backward passes are run through it, as when a Jacobian is assembled row by row: with the first cotangent again ('same': must reproduce the
+first result bit for bit - the backward is a deterministic function of the saved forward results, the options given by the caller and the
+cotangent; it is run in the same recording mode as the first pass) and with other losses of the same family ('alt'; 'vals' = eigenvalues only,
+eigenvectors not in the graph; 'vecs' = eigenvectors only; 'part' = per group values and/or vectors or neither, the others get exactly zero
+cotangents; 'zero' = all cotangents exactly zero), each compared with the closed-form reference for that loss with the first-order tolerance.
+For order 2 the passes are run either between the (graph-recording) first backward and the double backward or after the double backward
+(then 'same' repeats the double backward); for order 1 the first backward is graph-recording in a third of the cases.  In a third of the
+cases the caller passes explicit degeneracy thresholds that mean the same as the defaults for the generated spectra (1e-7 / 1e-8: rounding
+splits of repeated eigenvalues are < 1e-12, different eigenvalues >= 0.3 apart).
+
+Perfect-fit least squares (a quarter of the order-2 cases): l = 1/2 sum beta |r - r(here)|^2 with the residuals r = (sum of the eigenvalues of
+every group, sum over every group of Re x_i^H W1 x_i): every first-order cotangent is exactly zero, the gradient must vanish and the second-order
+gradient is J^T diag(beta) J C, for which the closed-form first-order rows J_r are an exact reference also at exact degeneracy (the terms the
+recorded second-order finding is about are multiplied by the zero residuals).  Error bound: sum_r 2 beta_r tol (1 + |J_r|max) (|C|_1 |J_r|max +
+|J_r . C|) + tol, i.e. each of the two first-order pull-backs composing the double backward accurate to the first-order tolerance; x10.
+
+Task degen_opts: see run_degen_opts (explicit degeneracy thresholds, near-degenerate pair the thresholds do not cover; symeig with / without M,
+svd, custom_exacteig / davidson, f64 / c128, first and second order, repeated backward passes).
+
 Recorded findings (SITES; generated only when known_findings.json lists the site, otherwise avoided by construction):
   second_order_at_degeneracy             second-order gradients are wrong by O(1) when a repeated eigenvalue lies in the selected set
                                          (custom_exacteig, davidson) or anywhere in the spectrum (exacteig / default, which differentiates
@@ -65,8 +85,16 @@ RULE = ("eig: pencils with prescribed spectra, gaps >= 0.3 between the selected 
         "exactsolve or default; 1 in 6 with exactly diagonal A and M; loss basis-independent by construction (see module docstring); order 1 and 2. "
         "svd: m,n <= 6, tall/wide/square, operator kinds dense / matrix-free / adjoint / product / sum, singular values 0.6.. with gaps 0.3/0.5 "
         "and exact repeats. "
-        "Non-trivial = the reference gradient is non-zero and (neig < n or M given or a degenerate group is selected or order 2); "
-        "distinct by canonical case.")
+        "eig and svd: in half of the cases 1..3 further backward passes through the retained graph of the same forward call (same cotangent: bit-for-bit "
+        "reproduction; other losses incl. values-only, vectors-only, per-group partial and all-zero cotangents: reference comparison), before or after the "
+        "double backward; first backward graph-recording for order 2 and for a third of order 1; explicit degeneracy thresholds equivalent to the defaults "
+        "in a third of the cases; a quarter of the order-2 cases use a perfect-fit least-squares loss (zero first-order cotangents, Hessian J^T J, also at "
+        "exact degeneracy). "
+        "degen_opts: near-degenerate pair (gap 2e-8..3e-7) not covered by the caller's explicit thresholds, loss distinguishing its two vectors; symeig "
+        "with/without M and svd, custom_exacteig / davidson, f64 / c128, order 1 and 2, 0..3 further backward passes (same / full / one vector of the pair / "
+        "values / the other pairs). "
+        "Non-trivial = the reference gradient is non-zero and (neig < n or M given or a degenerate group is selected or order 2 or further passes were run); "
+        "perfect fit: the reference second-order gradient is non-zero; distinct by canonical case.")
 ASSUMPTIONS = [
     "reference eigendecomposition: scipy.linalg.eigh (LAPACK) of the dense matrices built from the same leaves; closed-form first-order "
     "perturbation theory (ref_c05.eig_pullback) cross-validated against finite differences and, on every non-degenerate case, against "
@@ -80,13 +108,18 @@ ASSUMPTIONS = [
     "backward linear solver: exactsolve (explicitly or as solve's default for dense / n <= 5 operators); Krylov backward solvers on the singular "
     "shifted system are not part of this check",
     "davidson: real dtype; with exact repeats multiplicities <= neig and neig divides n (rank-deficient expansion blocks are a recorded C05 finding)",
+    "repeated backward with the same cotangent is compared bit for bit: the backward uses exactsolve (explicitly or as solve's default), no random "
+    "numbers, single-threaded kernels, and is run in the same recording mode (create_graph) as the pass it is compared with",
+    "degen_opts: reference = torch.linalg.eigh (Cholesky-reduced with M) / torch.linalg.svd + autograd, all eigenvalues simple; tolerance "
+    "(1e-6 + 1e4 eps max(|e|,1) cond(M) / gap) (1 + |ref|max), second order x10: the backward shifts the eigenvalue by 1e-14 max(|e|,1), a relative error "
+    "(cw_i + cw_j)/|cw_i - cw_j| 1e-14/gap <= 15e-14/gap for the generated weights (measured <= 1e3 eps/gap)",
 ]
 LEVEL_TEXT = ("Exploration against a closed-form perturbation-theory gradient evaluated on an independent LAPACK eigendecomposition, with the full "
               "dense matrix as leaf so that degeneracy-breaking directions are observable; second order against autograd-through-eigh or "
               "finite differences of the closed form.")
 LEVEL_NOTE = "trusts scipy.linalg.eigh, torch autograd on plain-torch expressions, and the perturbation formulas stated in the module docstring"
 TECHNIQUE = "Hypothesis property-based testing: analytic-gradient oracle (perturbation theory) + differentiable reference model + finite differences"
-WALL = {"quick": 400, "thorough": 2400}
+WALL = {"quick": 500, "thorough": 3000}
 
 EPS = R.EPS
 FD_H = 1e-3
@@ -111,9 +144,16 @@ def group_weights(g, gid, lo=-1.0, hi=1.0):
     return w[torch.tensor(gid)]
 
 
+def group_mask(mask, gid):
+    """0/1 weight per selected index from a 0/1 list per group"""
+    return torch.tensor([float(mask[i]) for i in gid], dtype=torch.float64)
+
+
 class EigLoss:
-    """l(E, X) for E (*batch,k), X (*batch,n,k); basis independent inside groups"""
-    def __init__(self, g, gid, n, batch, dtype, use_vec=True):
+    """l(E, X) for E (*batch,k), X (*batch,n,k); basis independent inside groups.
+    emask / vmask (0/1 per group, optional): the groups whose eigenvalues / eigenvectors the loss depends on (the others get an
+    exactly zero cotangent); use_vec=False: the eigenvectors do not enter the graph of the loss at all."""
+    def __init__(self, g, gid, n, batch, dtype, use_vec=True, emask=None, vmask=None):
         self.w = group_weights(g, gid)
         self.q = group_weights(g, gid)
         self.u = group_weights(g, gid)
@@ -122,6 +162,12 @@ class EigLoss:
         self.W2 = R.herm(gen.randn(g, (n, n), dtype))
         self.beta = torch.rand(tuple(batch), generator=g, dtype=torch.float64) + 0.5
         self.use_vec = use_vec
+        if emask is not None:
+            self.w = self.w * group_mask(emask, gid)
+            self.q = self.q * group_mask(emask, gid)
+        if vmask is not None:
+            self.u = self.u * group_mask(vmask, gid)
+            self.v = self.v * group_mask(vmask, gid)
 
     def __call__(self, E, X):
         le = (self.w * E + 0.5 * self.q * E * E).sum(-1)
@@ -134,12 +180,53 @@ class EigLoss:
         return (self.beta * (le + a + 0.5 * a * c + 0.3 * a * (self.w * E).sum(-1))).sum()
 
 
+def group_sums(t, gid):
+    """(*batch,k) -> (*batch,ngroups): sums over the groups of repeated eigenvalues (symmetric functions of a group)"""
+    ng = max(gid) + 1
+    P = torch.zeros((len(gid), ng), dtype=t.dtype)
+    P[torch.arange(len(gid)), torch.tensor(gid)] = 1.0
+    return t @ P
+
+
+class PerfectFitEigLoss:
+    """least squares with a perfect fit: l = 1/2 sum_b beta_b |r_b - target_b|^2, residuals r = (sum of the eigenvalues of every group,
+    sum over every group of Re x_i^H W1 x_i), target = the value of r at the point itself (frozen by the first call, or by
+    freeze()).  Every first-order cotangent is exactly zero, the gradient is exactly zero and the Hessian is J^T diag(beta) J."""
+    def __init__(self, g, gid, n, batch, dtype, use_vec=True):
+        self.gid = gid
+        self.W1 = R.herm(gen.randn(g, (n, n), dtype))
+        self.beta = torch.rand(tuple(batch), generator=g, dtype=torch.float64) + 0.5
+        self.use_vec = use_vec
+        self.target = None
+
+    def residuals(self, E, X):
+        r = group_sums(E, self.gid)
+        if self.use_vec:
+            q1 = torch.einsum("...ai,ab,...bi->...i", X.conj(), self.W1, X).real
+            r = torch.cat([r, group_sums(q1, self.gid)], dim=-1)
+        return r
+
+    def fresh(self):
+        """the same loss with its target not yet frozen (for another set of eigenpairs of the same matrices)"""
+        import copy
+        o = copy.copy(self)
+        o.target = None
+        return o
+
+    def __call__(self, E, X):
+        r = self.residuals(E, X)
+        if self.target is None:
+            self.target = r.detach().clone()
+        return 0.5 * (self.beta * ((r - self.target) ** 2).sum(-1)).sum()
+
+
 # ------------------------------------------------------------------------------------------------ references
 
-def closed_form_grads(loss, Ad, Md, batch, sel_idx, same, leaves_fn, leaves, wrt):
-    """first-order reference.  Ad, Md: dense matrices (detached) built from `leaves`; returns list of gradients w.r.t. `wrt`."""
+def closed_form_grads(loss, Ad, Md, batch, sel_idx, same, leaves_fn, leaves, wrt, eig=None):
+    """first-order reference.  Ad, Md: dense matrices (detached) built from `leaves`; returns list of gradients w.r.t. `wrt`.
+    eig: the reference decomposition (vals, vecs) of (Ad, Md) when the caller already has it."""
     n = Ad.shape[-1]
-    vals, vecs = R.ref_eigh(Ad, Md, batch)                       # (*batch,n), (*batch,n,n)
+    vals, vecs = R.ref_eigh(Ad, Md, batch) if eig is None else eig    # (*batch,n), (*batch,n,n)
     sel = torch.tensor(sel_idx)
     Es = vals[..., sel].clone().requires_grad_()
     Xs = vecs[..., :, sel].clone().requires_grad_()
@@ -203,6 +290,44 @@ def compare(got, ref, wrt_names, tol, what, labels, extra=""):
     return None, worst
 
 
+def compare_abs(got, ref, wrt_names, bounds, what, labels, extra=""):
+    """as compare, with an absolute error bound per leaf"""
+    worst = 0.0
+    for gk, rk, nm, b in zip(got, ref, wrt_names, bounds):
+        if gk is None:
+            gk = torch.zeros_like(rk)
+        if not bool(torch.isfinite(gk.detach().abs()).all()):
+            return violation(what + "_nonfinite", "%s gradient w.r.t. %s is not finite%s" % (what, nm, extra), labels), float("inf")
+        err = maxabs(gk - rk)
+        worst = max(worst, err / b)
+        if not err <= b:
+            return violation(what, "%s gradient w.r.t. %s: max err %.3e > %.3e (|ref|max %.3e)%s" % (what, nm, err, b, maxabs(rk), extra), labels), worst
+    return None, worst
+
+
+def perfect_fit_hessian(loss_ref, row_fn, ref_eig, sel_idx, batch, C, wrt, tol):
+    """H C = sum_r beta_r (J_r . C) J_r for the perfect-fit loss, J_r = row_fn(residual r as a loss) (list of tensors like wrt).
+    Also returns, per leaf, the bound on the error of a double backward whose first-order pull-backs are each accurate to
+    tol (1 + |J_r|max) (the first-order tolerance):  sum_r beta_r tol (1 + |J_r|max) (|C|_1 |J_r|max + |J_r . C|) [first factor wrong]
+    + the same [second factor wrong]."""
+    vals, vecs = ref_eig
+    sel = torch.tensor(sel_idx)
+    nres = loss_ref.residuals(vals[..., sel], vecs[..., :, sel]).shape[-1]
+    c1 = sum(float(c.abs().sum()) for c in C)
+    ref2 = [torch.zeros_like(x) for x in wrt]
+    bound = [0.0 for _ in wrt]
+    for idx in (np.ndindex(*batch) if batch else [()]):
+        beta = float(loss_ref.beta[idx])
+        for j in range(nres):
+            Jr = row_fn(lambda E, X, idx=idx, j=j: loss_ref.residuals(E, X)[idx + (j,)])
+            v = sum(float((c.conj() * jr).sum().real) for c, jr in zip(C, Jr))
+            jmax = max(maxabs(jr) for jr in Jr)
+            for i, jr in enumerate(Jr):
+                ref2[i] = ref2[i] + beta * v * jr
+                bound[i] += 2 * beta * tol * (1 + jmax) * (c1 * jmax + abs(v))
+    return ref2, [b + tol for b in bound]                    # + the rounding floor of a loss of natural scale 1
+
+
 def margin_label(name, ratio):
     """decade of err/tol (evidence of how far typical errors stay below the tolerance)"""
     if ratio <= 0:
@@ -211,6 +336,84 @@ def margin_label(name, ratio):
 
 
 # ------------------------------------------------------------------------------------------------ eig task
+
+# explicit degeneracy thresholds that mean the same as the defaults for every generated spectrum: repeated eigenvalues are split by rounding
+# only (<= n eps spread cond(M) < 1e-12), different eigenvalues are >= 0.3 apart and |e| <= 40
+EQUIVALENT_DEGEN_OPTS = {None: {}, "atol": {"degen_atol": 1e-7}, "both": {"degen_atol": 1e-8, "degen_rtol": 1e-8},
+                         "rtol_none": {"degen_atol": 1e-7, "degen_rtol": None}}
+
+
+def row_masks(g2, ng):
+    """per group: does the loss depend on its eigenvalues / its eigenvectors (all four combinations, drawn independently)"""
+    e = [int(x) for x in torch.randint(0, 2, (ng,), generator=g2)]
+    v = [int(x) for x in torch.randint(0, 2, (ng,), generator=g2)]
+    return e, v
+
+
+def row_loss(cls, kind, g2, gid, dims, batch, dtype, vec_ok=True):
+    """the loss of one further backward pass through the same graph.  kind: alt (another loss of the same family), vals (eigenvalues
+    only, eigenvectors not in the graph), vecs (eigenvectors only), part (every group: values and/or vectors or neither), zero
+    (depends on nothing: all cotangents exactly zero).  vec_ok False: vector-dependent losses are outside the domain (svd at repeated
+    singular values), only the value part is kept."""
+    ng = max(gid) + 1
+    ones, zeros = [1] * ng, [0] * ng
+    if kind == "vals":
+        return cls(g2, gid, *dims, batch, dtype, use_vec=False)
+    if kind == "alt":
+        em, vm = ones, ones
+    elif kind == "vecs":
+        em, vm = zeros, ones
+    elif kind == "part":
+        em, vm = row_masks(g2, ng)
+    elif kind == "zero":
+        em, vm = zeros, zeros
+    else:
+        raise ValueError(kind)
+    if not vec_ok:
+        vm = zeros
+    return cls(g2, gid, *dims, batch, dtype, use_vec=True, emask=em, vmask=vm)
+
+
+def bitwise_equal(a, b):
+    if (a is None) != (b is None):
+        return False
+    if a is None:
+        return True
+    a, b = a.detach(), b.detach()
+    if a.is_complex():
+        a, b = torch.view_as_real(a), torch.view_as_real(b)
+    return bool(((a == b) | (torch.isnan(a) & torch.isnan(b))).all())
+
+
+def repeated_backward(rows, first_fn, first_got, outs, wrt, names, mkloss, ref_fn, tol, labels, info, what="grad1"):
+    """further backward passes through the graph of ONE forward call (kept with retain_graph=True), as when a Jacobian is assembled
+    row by row.  'same': the first cotangent again - the result must reproduce the first one bit for bit (the backward is a
+    deterministic function of the saved forward results and of the cotangent; exactsolve, no random numbers).  Other kinds: another
+    loss of the same outputs - compared with the reference for that loss with the first-order tolerance."""
+    for j, kind in enumerate(rows):
+        tag = "pass%d=%s" % (j + 2, kind)
+        if kind == "same":
+            again = first_fn()
+            for a, b, nm in zip(again, first_got, names):
+                if not bitwise_equal(a, b):
+                    d = float("nan") if (a is None or b is None) else maxabs(a.detach() - b.detach())
+                    return violation("repeated_backward_differs", "backward pass #%d through the same graph with the same cotangent does not reproduce "
+                                     "the first pass: %s w.r.t. %s differs by %.3e%s" % (j + 2, what, nm, d, info), labels + [tag]), labels
+            labels = labels + [tag]
+            continue
+        lj_obj = mkloss(kind)
+        lj = lj_obj(*outs)
+        if not lj.requires_grad:
+            return violation("no_graph", "loss (%s) of the outputs does not require grad" % kind, labels + [tag]), labels
+        gj = xt_call(torch.autograd.grad, lj, wrt, retain_graph=True, allow_unused=True, _where="backward_pass%d" % (j + 2))
+        refj = ref_fn(lj_obj)
+        bad, worst = compare(gj, refj, names, tol, "grad1_later_pass", labels + [tag],
+                             " [backward pass #%d through the same graph, loss kind '%s']%s" % (j + 2, kind, info))
+        if bad is not None:
+            return bad, labels
+        labels = labels + [tag, "pass_ref=%s" % ("zero" if not any(maxabs(r) > 0 for r in refj) else "nonzero")]
+    return None, labels
+
 
 def prepare_eig(case):
     """everything run_eig needs, as a namespace (also used by the finite-difference cross-validation during development)"""
@@ -231,8 +434,10 @@ def prepare_eig(case):
     labels = ["method=%s" % method, "mode=%s" % case["mode"], "M=%s" % (case["mop"] if hasM else "none"), "aop=%s" % case["aop"],
               "dtype=%s" % case["dtype"], "degenerate=%s" % degenerate, "structure=%s" % case.get("structure", "generic"), "neig=%s" % ("full" if k == n else "partial"),
               "order=%d" % order, "bck=%s" % case["bck"], "batch=%dx%d" % (len(case["batchA"]), -1 if not hasM else len(case["batchM"])),
-              "wrt=%s" % case["wrt"], "loss=%s" % ("values" if not case["use_vec"] else "values+vectors"),
-              "maxgroup=%d" % max(gid.count(x) for x in set(gid))]
+              "wrt=%s" % case["wrt"], "loss=%s%s" % ("values" if not case["use_vec"] else "values+vectors", "(perfect_fit)" if case.get("loss2") == "perfect" else ""),
+              "maxgroup=%d" % max(gid.count(x) for x in set(gid)), "degen_opts=%s" % case.get("degen"),
+              "passes=%d%s" % (1 + len(case.get("rows", [])), "(late)" if case.get("late") and case.get("rows") else ""),
+              "first_backward=%s" % ("recording" if (order == 2 or case.get("first_graph")) else "plain")]
     # a group must not straddle the cut
     if k < n:
         inside, outside = (lam[k - 1], lam[k]) if low else (lam[n - k], lam[n - k - 1])
@@ -262,22 +467,29 @@ def prepare_eig(case):
         Md = R.dense_of(case["mop"], leaves[nA:], True) if hasM else None
         return Ad, Md
 
-    loss = EigLoss(g, gid, n, batch, dtype, use_vec=case["use_vec"])
+    if case.get("loss2") == "perfect":
+        loss = PerfectFitEigLoss(g, gid, n, batch, dtype, use_vec=case["use_vec"])
+    else:
+        loss = EigLoss(g, gid, n, batch, dtype, use_vec=case["use_vec"])
     same = R.groups_of(gid)
     bck = {"method": "exactsolve"} if case["bck"] == "exactsolve" else {}
+    bck.update(EQUIVALENT_DEGEN_OPTS[case.get("degen")])
     kwargs = {"bck_options": bck}
     if method != "default":
         kwargs["method"] = method
     if method == "davidson":
         kwargs["min_eps"] = 1e-10
 
-    def xi_loss(leaves):
+    def xi_eig(leaves):
         Aop = R.make_operator(case["aop"], leaves[:nA], True)
         Mop = R.make_operator(case["mop"], leaves[nA:], True) if hasM else None
-        E, X = xl.symeig(Aop, case["neig"], case["mode"], Mop, **kwargs)
-        return loss(E, X)
+        return xl.symeig(Aop, case["neig"], case["mode"], Mop, **kwargs)
+
+    def xi_loss(leaves):
+        return loss(*xi_eig(leaves))
 
     ns = type("EigSetup", (), {})()
+    ns.xi_eig = xi_eig
     ns.__dict__.update(dict(n=n, k=k, lam=lam, hasM=hasM, sel_idx=sel_idx, gid=gid, degenerate=degenerate, method=method, order=order,
                             labels=labels, p=p, batch=batch, Aleaves=Aleaves, Mleaves=Mleaves, wrt=wrt, names=names, leaves_fn=leaves_fn,
                             loss=loss, same=same, xi_loss=xi_loss, g=g))
@@ -298,21 +510,24 @@ def run_eig(case):
         return ns                       # a discard verdict
     n, k, lam, hasM, sel_idx, degenerate, method, order = ns.n, ns.k, ns.lam, ns.hasM, ns.sel_idx, ns.degenerate, ns.method, ns.order
     labels, p, batch, Aleaves, Mleaves, wrt, names, leaves_fn = ns.labels, ns.p, ns.batch, ns.Aleaves, ns.Mleaves, ns.wrt, ns.names, ns.leaves_fn
-    loss, same, xi_loss, g = ns.loss, ns.same, ns.xi_loss, ns.g
+    loss, same, g = ns.loss, ns.same, ns.g
     with warnings.catch_warnings(record=True) as wlist:
         warnings.simplefilter("always")
         try:
-            lx = xt_call(xi_loss, Aleaves + Mleaves, _where="forward")
+            outs = xt_call(ns.xi_eig, Aleaves + Mleaves, _where="forward")
         except XitorchRaised as e:
             if method == "davidson" and e.kind.startswith(DAVIDSON_BREAKDOWN):
                 return discard("forward_davidson_cholesky_breakdown(C05_finding)", labels)
             raise
+        lx = loss(*outs)
         warned = [w for w in wlist if "onverge" in type(w.message).__name__]
         if warned:
             return discard("forward_convergence_warning", labels)
         if not lx.requires_grad:
             return violation("no_graph", "loss of symeig outputs does not require grad although %d leaves do" % len(wrt), labels)
-        got = xt_call(torch.autograd.grad, lx, wrt, create_graph=(order == 2), retain_graph=True, allow_unused=True, _where="backward")
+        # the first backward records a graph for order 2, and in some order-1 cases too (the later passes then follow a recording one)
+        first_graph = (order == 2) or bool(case.get("first_graph"))
+        got = xt_call(torch.autograd.grad, lx, wrt, create_graph=first_graph, retain_graph=True, allow_unused=True, _where="backward")
         # the pull-back is linear in the cotangent: the same loss in other units (x 1e-9, x 1e6) must give the same gradient in those
         # units (a backward that compares cotangents with absolute thresholds is not)
         sc_units = float(case.get("units", 1.0))
@@ -338,7 +553,10 @@ def run_eig(case):
         tol += 1e3 * math.sqrt(n) * 1e-10 * spread / gap ** 2
     # ---------------------------------------------------------------- first order
     Ad, Md = leaves_fn([t.detach() for t in Aleaves + Mleaves])
-    ref, lref = closed_form_grads(loss, Ad, Md, batch, sel_idx, same, leaves_fn, Aleaves + Mleaves, wrt)
+    perfect = case.get("loss2") == "perfect"
+    loss_ref = loss.fresh() if perfect else loss          # perfect fit: the target of the reference is its own value at this point
+    ref_eig = R.ref_eigh(Ad, Md, batch)
+    ref, lref = closed_form_grads(loss_ref, Ad, Md, batch, sel_idx, same, leaves_fn, Aleaves + Mleaves, wrt, eig=ref_eig)
     if not abs(float(lx) - lref) <= tol * (1 + abs(lref)):
         return violation("loss_value", "loss on xitorch's eigenpairs %.12g vs on the reference eigenpairs %.12g (tol %.2e): the loss is basis "
                          "independent, so the returned pairs are wrong" % (float(lx), lref, tol), labels)
@@ -349,10 +567,29 @@ def run_eig(case):
     labels = labels + [margin_label("err1/tol", worst)]
     refnz = any(maxabs(r) > 0 for r in ref)
     nontriv = refnz and (k < n or hasM or degenerate or order == 2)
+    # ---------------------------------------------------------------- further backward passes through the same graph
+    rows = list(case.get("rows", []))
+    late = bool(case.get("late")) and order == 2
+    g2 = gen.seeded(case["seed"] ^ 0x2B5A17C3)              # own stream: the draws of the other parts do not move
+
+    def mkloss(kind):
+        return row_loss(EigLoss, kind, g2, ns.gid, (n,), batch, R.DT[case["dtype"]])
+
+    def ref_fn(lobj):
+        return closed_form_grads(lobj, Ad, Md, batch, sel_idx, same, leaves_fn, Aleaves + Mleaves, wrt, eig=ref_eig)[0]
+
+    def first_again():
+        # (same recording mode as the first pass: a recording backward may legitimately use other kernels than a plain one)
+        return xt_call(torch.autograd.grad, lx, wrt, create_graph=first_graph, retain_graph=True, allow_unused=True, _where="backward_again")
+    if rows and not late:
+        bad, labels = repeated_backward(rows, first_again, got, outs, wrt, names, mkloss, ref_fn, tol, labels, info)
+        if bad is not None:
+            return bad
+    nontriv = nontriv or (refnz and bool(rows))
     simple_all = len(set(lam)) == n
     if simple_all:
         # self check of the oracle: closed form vs autograd through torch.linalg.eigh (whose backward needs *all* eigenvalues simple)
-        lt = eigh_autograd_loss(loss, leaves_fn, Aleaves + Mleaves, batch, sel_idx)
+        lt = eigh_autograd_loss(loss.fresh() if perfect else loss, leaves_fn, Aleaves + Mleaves, batch, sel_idx)
         ref_t = torch.autograd.grad(lt, wrt, create_graph=(order == 2), allow_unused=True)
         ref_t = [torch.zeros_like(x) if r is None else r for r, x in zip(ref_t, wrt)]
         for r1, r2 in zip(ref, ref_t):
@@ -374,7 +611,30 @@ def run_eig(case):
         return violation("no_second_graph", "create_graph=True produced first-order gradients without a graph", labels)
     with warnings.catch_warnings():
         warnings.simplefilter("ignore")
-        got2 = xt_call(torch.autograd.grad, L1, wrt, allow_unused=True, _where="backward2")
+        got2 = xt_call(torch.autograd.grad, L1, wrt, allow_unused=True, retain_graph=late, _where="backward2")
+        if late:
+            # passes after the double backward: 'same' repeats the double backward itself (bit for bit), the others are first-order
+            # passes with another loss through the forward graph, which the double backward has just traversed
+            def second_again():
+                return xt_call(torch.autograd.grad, L1, wrt, allow_unused=True, retain_graph=True, _where="backward2_again")
+            bad, labels = repeated_backward(rows, second_again, got2, outs, wrt, names, mkloss, ref_fn, tol, labels, info, what="grad2")
+            if bad is not None:
+                return bad
+    if perfect:
+        # Hessian of a perfect fit = J^T diag(beta) J with the rows J_r = closed-form first-order gradients of the residuals (valid at
+        # exact degeneracy: the residuals are symmetric functions of the groups): H C = sum_r beta_r (J_r . C) J_r
+        def row_fn(lin):
+            return closed_form_grads(lin, Ad, Md, batch, sel_idx, same, leaves_fn, Aleaves + Mleaves, wrt, eig=ref_eig)[0]
+        ref2, bound = perfect_fit_hessian(loss_ref, row_fn, ref_eig, sel_idx, batch, C, wrt, tol)
+        if simple_all:
+            ref2_t = torch.autograd.grad(contract(ref_t), wrt, allow_unused=True)
+            for r1, r2, b in zip(ref2, ref2_t, bound):
+                if not maxabs(r1 - (torch.zeros_like(r1) if r2 is None else r2)) <= 10 * b:
+                    return discard("reference_self_check_failed", labels)
+        bad, worst = compare_abs(got2, ref2, names, [10 * b for b in bound], "grad2_perfect_fit", labels, info)
+        if bad is not None:
+            return bad
+        return ok(labels + ["ref2=JtJ_closed_form", margin_label("err2pf/tol", worst)], nontrivial=any(maxabs(r) > 0 for r in ref2))
     if simple_all:
         # (torch.linalg.eigh's own double backward is wrong when *any* two eigenvalues coincide, also unselected ones)
         ref2 = torch.autograd.grad(contract(ref_t), wrt, allow_unused=True)
@@ -397,7 +657,7 @@ def run_eig(case):
                 moved.append(x.detach())
         w2 = [x for x in moved if x.requires_grad]
         Ad2, Md2 = leaves_fn([x.detach() for x in moved])
-        r, _ = closed_form_grads(loss, Ad2, Md2, batch, sel_idx, same, leaves_fn, moved, w2)
+        r, _ = closed_form_grads(loss_ref, Ad2, Md2, batch, sel_idx, same, leaves_fn, moved, w2)
         return float(contract(r))
     # step: a leaf perturbation t D (|D| <= 1 per leaf) moves the dense A, M by <= 2t and a pencil eigenvalue by <= 2t (1 + spread)/lmin;
     # the gradient is analytic in t until a gap closes, r = gap lmin / (4 (1 + spread)); 2h = r/20 keeps the 4th-order truncation
@@ -424,7 +684,7 @@ def run_eig(case):
 class SvdLoss:
     """l(S, U, V) for S (*batch,k), U (*batch,m,k), V (*batch,n,k): invariant under simultaneous phase changes of (u_i, v_i) and under
     simultaneous rotations of the pairs of a group of repeated singular values"""
-    def __init__(self, g, gid, m, n, batch, dtype, use_vec=True):
+    def __init__(self, g, gid, m, n, batch, dtype, use_vec=True, emask=None, vmask=None):
         self.w = group_weights(g, gid)
         self.q = group_weights(g, gid)
         self.h1 = group_weights(g, gid)
@@ -433,6 +693,12 @@ class SvdLoss:
         self.W2 = gen.randn(g, (m, n), dtype)
         self.beta = torch.rand(tuple(batch), generator=g, dtype=torch.float64) + 0.5
         self.use_vec = use_vec
+        if emask is not None:           # groups whose singular values / vectors the loss depends on (see EigLoss)
+            self.w = self.w * group_mask(emask, gid)
+            self.q = self.q * group_mask(emask, gid)
+        if vmask is not None:
+            self.h1 = self.h1 * group_mask(vmask, gid)
+            self.h2 = self.h2 * group_mask(vmask, gid)
 
     def __call__(self, S, U, V):
         ls = (self.w * S + 0.5 * self.q * S * S).sum(-1)
@@ -443,6 +709,51 @@ class SvdLoss:
         a = (self.h1 * t1).sum(-1)
         c = (self.h2 * t2).sum(-1)
         return (self.beta * (ls + a + 0.5 * a * c + 0.3 * a * (self.w * S).sum(-1))).sum()
+
+
+class PerfectFitSvdLoss:
+    """as PerfectFitEigLoss: residuals = (sum of the singular values of every group, sum over every group of Re u_i^H W1 v_i)"""
+    def __init__(self, g, gid, m, n, batch, dtype, use_vec=True):
+        self.gid = gid
+        self.W1 = gen.randn(g, (m, n), dtype)
+        self.beta = torch.rand(tuple(batch), generator=g, dtype=torch.float64) + 0.5
+        self.use_vec = use_vec
+        self.target = None
+
+    def residuals(self, S, U, V):
+        r = group_sums(S, self.gid)
+        if self.use_vec:
+            t1 = torch.einsum("...ai,ab,...bi->...i", U.conj(), self.W1, V).real
+            r = torch.cat([r, group_sums(t1, self.gid)], dim=-1)
+        return r
+
+    fresh = PerfectFitEigLoss.fresh
+
+    def __call__(self, S, U, V):
+        r = self.residuals(S, U, V)
+        if self.target is None:
+            self.target = r.detach().clone()
+        return 0.5 * (self.beta * ((r - self.target) ** 2).sum(-1)).sum()
+
+
+class Embedded:
+    """a loss of singular triplets as a loss of the eigenpairs (s_i, [u_i; v_i]/sqrt 2) of the Jordan-Wielandt matrix"""
+    def __init__(self, loss, m):
+        self.loss, self.m = loss, m
+
+    def split(self, E, Z):
+        rt2 = math.sqrt(2.0)
+        return E, rt2 * Z[..., :self.m, :], rt2 * Z[..., self.m:, :]
+
+    def __call__(self, E, Z):
+        return self.loss(*self.split(E, Z))
+
+    def residuals(self, E, Z):
+        return self.loss.residuals(*self.split(E, Z))
+
+    @property
+    def beta(self):
+        return self.loss.beta
 
 
 def embed(A):
@@ -480,7 +791,11 @@ def run_svd(case):
     kind = case["aop"]
     labels = ["svd_method=%s" % method, "svd_mode=%s" % case["mode"], "svd_shape=%s" % ("tall" if m > n else ("wide" if m < n else "square")),
               "svd_aop=%s" % kind, "svd_dtype=%s" % case["dtype"], "svd_degenerate=%s" % degenerate, "svd_k=%s" % ("full" if k == r else "partial"),
-              "svd_order=%d" % order, "svd_batch=%d" % len(batch), "svd_loss=%s" % ("values" if not case["use_vec"] else "values+vectors")]
+              "svd_order=%d" % order, "svd_batch=%d" % len(batch),
+              "svd_loss=%s%s" % ("values" if not case["use_vec"] else "values+vectors", "(perfect_fit)" if case.get("loss2") == "perfect" else ""),
+              "svd_degen_opts=%s" % case.get("degen"),
+              "svd_passes=%d%s" % (1 + len(case.get("rows", [])), "(late)" if case.get("late") and case.get("rows") else ""),
+              "svd_first_backward=%s" % ("recording" if (order == 2 or case.get("first_graph")) else "plain")]
     if k < r:
         inside, outside = (sv[k - 1], sv[k]) if low else (sv[r - k], sv[r - k - 1])
         if inside == outside:
@@ -492,38 +807,45 @@ def run_svd(case):
     A0 = (U0 * S0.to(dtype)[..., None, :]) @ R.ct(V0)
     leaves = [t.clone().requires_grad_() for t in R.split_leaves(kind, A0, g)]
     names = ["A-leaf%d" % i for i in range(len(leaves))]
-    loss = SvdLoss(g, gid, m, n, batch, dtype, use_vec=case["use_vec"])
+    perfect = case.get("loss2") == "perfect"
+    if perfect:
+        loss = PerfectFitSvdLoss(g, gid, m, n, batch, dtype, use_vec=case["use_vec"])
+    else:
+        loss = SvdLoss(g, gid, m, n, batch, dtype, use_vec=case["use_vec"])
     same = R.groups_of(gid)
     kwargs = {"bck_options": {"method": "exactsolve"} if case["bck"] == "exactsolve" else {}}
+    # (thresholds on the eigenvalues s^2 >= 0.36 of A^H A, gaps >= 0.3 * 1.2; equivalent to the defaults as in the eig task)
+    kwargs["bck_options"].update(EQUIVALENT_DEGEN_OPTS[case.get("degen")])
     if method != "default":
         kwargs["method"] = method
     if method == "davidson":
         kwargs["min_eps"] = 1e-10
 
-    def xi_loss(lv):
+    def xi_svd(lv):
         Aop = R.make_operator(kind, lv, False)
         U, S, Vh = xl.svd(Aop, case["k"], case["mode"], **kwargs)
-        return loss(S, U, R.ct(Vh))
+        return S, U, R.ct(Vh)
+    rows = list(case.get("rows", []))
+    late = bool(case.get("late")) and order == 2
+    first_graph = (order == 2) or bool(case.get("first_graph"))
     with warnings.catch_warnings(record=True) as wlist:
         warnings.simplefilter("always")
         try:
-            lx = xt_call(xi_loss, leaves, _where="forward")
+            outs = xt_call(xi_svd, leaves, _where="forward")
         except XitorchRaised as e:
             if method == "davidson" and e.kind.startswith(DAVIDSON_BREAKDOWN):
                 return discard("forward_davidson_cholesky_breakdown(C05_finding)", labels)
             raise
+        lx = loss(*outs)
         if [w for w in wlist if "onverge" in type(w.message).__name__]:
             return discard("forward_convergence_warning", labels)
         if not lx.requires_grad:
             return violation("no_graph", "loss of svd outputs does not require grad", labels)
-        got = xt_call(torch.autograd.grad, lx, leaves, create_graph=(order == 2), allow_unused=True, _where="backward")
+        got = xt_call(torch.autograd.grad, lx, leaves, create_graph=first_graph, retain_graph=bool(rows) or None, allow_unused=True, _where="backward")
     # ---------------------------------------------------------------- reference through the Hermitian embedding
     N = m + n
     sel_idx = [N - r + i for i in pos]                       # +s_i are the r largest eigenvalues of the embedding, ascending
-    rt2 = math.sqrt(2.0)
-
-    def loss_H(E, Z):
-        return loss(E, rt2 * Z[..., :m, :], rt2 * Z[..., m:, :])
+    loss_H = Embedded(loss.fresh() if perfect else loss, m)
 
     def leaves_fn(lv):
         return embed(R.dense_of(kind, lv, False)), None
@@ -535,7 +857,8 @@ def run_svd(case):
     if method == "davidson":
         tol += 1e3 * math.sqrt(max(m, n)) * 1e-10 * smax ** 2 / gap_e ** 2 / smin
     Hd, _ = leaves_fn([t.detach() for t in leaves])
-    ref, lref = closed_form_grads(loss_H, Hd, None, batch, sel_idx, same, leaves_fn, leaves, leaves)
+    ref_eig = R.ref_eigh(Hd, None, batch)
+    ref, lref = closed_form_grads(loss_H, Hd, None, batch, sel_idx, same, leaves_fn, leaves, leaves, eig=ref_eig)
     info = " [m=%d n=%d k=%d gap(s^2)=%.3g smin=%.3g smax=%.3g degenerate=%s]" % (m, n, k, gap_e, smin, smax, degenerate)
     if not abs(float(lx) - lref) <= tol * (1 + abs(lref)):
         return violation("loss_value", "loss on xitorch's singular triplets %.12g vs on the reference triplets %.12g (tol %.2e)%s" % (
@@ -544,14 +867,34 @@ def run_svd(case):
     if bad is not None:
         return bad
     labels = labels + [margin_label("svd_err1/tol", worst)]
-    nontriv = any(maxabs(x) > 0 for x in ref) and (k < r or m != n or degenerate or order == 2)
+    refnz = any(maxabs(x) > 0 for x in ref)
+    nontriv = refnz and (k < r or m != n or degenerate or order == 2)
     simple_all = len(set(sv)) == r
+    # ---------------------------------------------------------------- further backward passes through the same graph (see run_eig)
+    g2 = gen.seeded(case["seed"] ^ 0x2B5A17C3)
+    vec_ok = not degenerate or bool(case["use_vec"])       # repeated selected singular values: vector losses only inside the recorded finding
+
+    def mkloss(kind_):
+        return row_loss(SvdLoss, kind_, g2, gid, (m, n), batch, dtype, vec_ok=vec_ok)
+
+    def ref_fn(lobj):
+        return closed_form_grads(Embedded(lobj, m), Hd, None, batch, sel_idx, same, leaves_fn, leaves, leaves, eig=ref_eig)[0]
+
+    def first_again():
+        return xt_call(torch.autograd.grad, lx, leaves, create_graph=first_graph, retain_graph=True, allow_unused=True, _where="backward_again")
+    if rows and not late:
+        bad, labels = repeated_backward(rows, first_again, got, outs, leaves, names, mkloss, ref_fn, tol, labels, info)
+        if bad is not None:
+            return bad
+    nontriv = nontriv or (refnz and bool(rows))
+
+    loss_t = loss.fresh() if perfect else loss
 
     def svd_autograd_loss(lv):
         A = R.dense_of(kind, lv, False).expand(*batch, m, n)
         U, S, Vh = torch.linalg.svd(A, full_matrices=False)
         ps = torch.tensor([r - 1 - i for i in pos])              # torch orders descending
-        return loss(S[..., ps], U[..., :, ps], R.ct(Vh)[..., :, ps])
+        return loss_t(S[..., ps], U[..., :, ps], R.ct(Vh)[..., :, ps])
     if simple_all:
         lt = svd_autograd_loss(leaves)
         ref_t = torch.autograd.grad(lt, leaves, create_graph=(order == 2), allow_unused=True)
@@ -574,7 +917,26 @@ def run_svd(case):
         return violation("no_second_graph", "create_graph=True produced first-order gradients without a graph", labels)
     with warnings.catch_warnings():
         warnings.simplefilter("ignore")
-        got2 = xt_call(torch.autograd.grad, L1, leaves, allow_unused=True, _where="backward2")
+        got2 = xt_call(torch.autograd.grad, L1, leaves, allow_unused=True, retain_graph=late, _where="backward2")
+        if late:
+            def second_again():
+                return xt_call(torch.autograd.grad, L1, leaves, allow_unused=True, retain_graph=True, _where="backward2_again")
+            bad, labels = repeated_backward(rows, second_again, got2, outs, leaves, names, mkloss, ref_fn, tol, labels, info, what="grad2")
+            if bad is not None:
+                return bad
+    if perfect:
+        def row_fn(lin):
+            return closed_form_grads(lin, Hd, None, batch, sel_idx, same, leaves_fn, leaves, leaves, eig=ref_eig)[0]
+        ref2, bound = perfect_fit_hessian(loss_H, row_fn, ref_eig, sel_idx, batch, C, leaves, tol)
+        if simple_all:
+            ref2_t = torch.autograd.grad(contract(ref_t), leaves, allow_unused=True)
+            for r1, r2, b in zip(ref2, ref2_t, bound):
+                if not maxabs(r1 - (torch.zeros_like(r1) if r2 is None else r2)) <= 10 * b:
+                    return discard("reference_self_check_failed", labels)
+        bad, worst = compare_abs(got2, ref2, names, [10 * b for b in bound], "grad2_perfect_fit", labels, info)
+        if bad is not None:
+            return bad
+        return ok(labels + ["svd_ref2=JtJ_closed_form", margin_label("svd_err2pf/tol", worst)], nontrivial=any(maxabs(x) > 0 for x in ref2))
     if simple_all:
         ref2 = torch.autograd.grad(contract(ref_t), leaves, allow_unused=True)
         ref2 = [torch.zeros_like(x) if q is None else q for q, x in zip(ref2, leaves)]
@@ -655,6 +1017,9 @@ def second_order_degenerate(lam, neig, mode, method):
 
 
 def _second_order_degenerate(case):
+    if case.get("loss2") == "perfect":
+        # perfect fit: the dropped within-group terms are multiplied by the (exactly zero) residuals; the Hessian J^T J needs first order only
+        return False
     if "sv" in case:
         return case.get("order") == 2 and svd_second_order_degenerate(case["sv"], case["k"], case["mode"], case["method"])
     return "lam" in case and case.get("order") == 2 and second_order_degenerate(case["lam"], case["neig"], case["mode"], case["method"])
@@ -680,6 +1045,17 @@ SITES = {"second_order_at_degeneracy": _second_order_degenerate, "svd_vectors_at
 def _known_sites():
     from pbt.harness import load_known
     return {e.get("site") for e in load_known(PID)}
+
+
+ROW_KINDS = ["same", "alt", "vals", "vecs", "part", "part", "zero"]
+
+
+@st.composite
+def rows_st(draw):
+    """the further backward passes through the same graph: none in half of the cases, else 1..3 (backward twice / three times / four times)"""
+    if draw(st.booleans()):
+        return []
+    return [draw(st.sampled_from(ROW_KINDS)) for _ in range(draw(st.sampled_from([1, 1, 2, 2, 3])))]
 
 
 @st.composite
@@ -720,10 +1096,17 @@ def eig_case_st(draw, tier="quick", known=()):
     bck = "exactsolve"
     if (alldense or n <= 5) and draw(st.booleans()):
         bck = "default"
-    if order == 2 and second_order_degenerate(lam, neig, mode, method):
-        if not ("second_order_at_degeneracy" in known and draw(st.sampled_from([True, False, False, False]))):
+    loss2 = None
+    if order == 2 and draw(st.sampled_from([True, False, False, False])):
+        loss2 = "perfect"               # perfect-fit least squares: first-order cotangents exactly zero, Hessian J^T J
+    if order == 2 and loss2 is None and second_order_degenerate(lam, neig, mode, method):
+        if not ("second_order_at_degeneracy" in known and draw(st.sampled_from([True, False, False]))):
             order = 1
-    return {"lam": lam, "dtype": dtype, "batchA": bA, "batchM": bM, "mkappa": draw(st.sampled_from([1.0, 2.0, 4.0, 10.0])),
+    rows = draw(rows_st())
+    extra = {"rows": rows, "late": bool(rows) and order == 2 and draw(st.booleans()),
+             "first_graph": order == 1 and draw(st.sampled_from([True, False, False])),
+             "degen": draw(st.sampled_from([None, None, None, "atol", "both", "rtol_none"])), "loss2": loss2}
+    return {**extra, "lam": lam, "dtype": dtype, "batchA": bA, "batchM": bM, "mkappa": draw(st.sampled_from([1.0, 2.0, 4.0, 10.0])),
             "aop": aop, "mop": mop, "method": method, "neig": neig, "mode": mode, "bck": bck,
             "structure": draw(st.sampled_from(["generic"] * 5 + ["diag"])),
             "wrt": draw(st.sampled_from(["AM", "AM", "A", "M"])), "use_vec": draw(st.sampled_from([True, True, True, False])),
@@ -756,16 +1139,23 @@ def svd_case_st(draw, tier="quick", known=()):
     k = draw(st.sampled_from(ks))
     if k == r and draw(st.booleans()):
         k = None
-    if order == 2 and svd_second_order_degenerate(sv, k, mode, method):
+    loss2 = None
+    if order == 2 and draw(st.sampled_from([True, False, False, False])):
+        loss2 = "perfect"
+    if order == 2 and loss2 is None and svd_second_order_degenerate(sv, k, mode, method):
         if not ("second_order_at_degeneracy" in known and draw(st.sampled_from([True, False, False, False]))):
             order = 1
+    rows = draw(rows_st())
+    extra = {"rows": rows, "late": bool(rows) and order == 2 and draw(st.booleans()),
+             "first_graph": order == 1 and draw(st.sampled_from([True, False, False])),
+             "degen": draw(st.sampled_from([None, None, None, "atol", "both", "rtol_none"])), "loss2": loss2}
     rank = draw(st.sampled_from([0, 0, 0, 1, 2]))
     batch = [draw(st.sampled_from([1, 2])) for _ in range(rank)]
     aop = draw(st.sampled_from(R.GEN_KINDS))
     bck = "exactsolve"
     if (aop == "dense" or r <= 5) and draw(st.booleans()):
         bck = "default"
-    case = {"m": m, "n": n, "sv": sv, "dtype": "f64" if method == "davidson" else draw(st.sampled_from(["f64", "c128"])), "batch": batch,
+    case = {**extra, "m": m, "n": n, "sv": sv, "dtype": "f64" if method == "davidson" else draw(st.sampled_from(["f64", "c128"])), "batch": batch,
             "aop": aop, "k": k, "mode": mode, "method": method, "bck": bck, "order": order,
             "use_vec": draw(st.sampled_from([True, True, True, False])), "seed": draw(st.integers(0, 2 ** 31 - 1))}
     if _svd_vectors_degenerate(case):
@@ -776,65 +1166,225 @@ def svd_case_st(draw, tier="quick", known=()):
 
 # ------------------------------------------------------------------------------------------------ task degen_opts
 
+DEGEN_OPTS = {"zero": {"degen_atol": 0.0, "degen_rtol": 0.0}, "rzero": {"degen_rtol": 0.0}, "azero_rtiny": {"degen_atol": 0.0, "degen_rtol": 1e-12},
+              "tiny": {"degen_atol": 1e-13, "degen_rtol": 1e-12}}
+PAIR_ROW_KINDS = ["same", "full", "v0", "v1", "v0", "v1", "vals", "rest"]
+
+
+class PairLoss:
+    """l = sum_i wl_i e_i + sum_i cw_i Re x_i^H W x_i (svd: s_i and Re u_i^H W v_i) with *different* weights for the two members of the
+    near-degenerate pair: well defined because the two eigenvalues are different.  kind: full | v0 / v1 (the vector term of one member of
+    the pair only) | vals (values only, vectors not in the graph) | rest (values + vector terms of the other pairs: the cotangent of the
+    vectors of the near-degenerate pair is exactly zero)."""
+    def __init__(self, g, k, wshape, dtype, pair, kind="full"):
+        self.W = gen.randn(g, wshape, dtype)
+        if wshape[0] == wshape[1]:
+            self.W = R.herm(self.W)
+        self.wl = torch.randn((k,), generator=g, dtype=torch.float64)
+        # weights of the two members of the pair: |cw_i - cw_j| >= (cw_i + cw_j) / 15.  The backward solves with the eigenvalue shifted
+        # by delta = 1e-14 max(|e|, 1), which changes both 1/(e_i - e_j) terms of the pair in the same direction: relative error
+        # (cw_i + cw_j) / |cw_i - cw_j| * delta / gap of the gradient, which the tolerance 1e4 eps max(|e|, 1) / gap covers 10 times
+        self.cw = torch.linspace(1.0, 2.0, k, dtype=torch.float64) * float(torch.rand((), generator=g, dtype=torch.float64) + 0.5)
+        self.kind = kind
+        mask = torch.ones((k,), dtype=torch.float64)
+        if kind in ("v0", "v1"):
+            mask = torch.zeros((k,), dtype=torch.float64)
+            mask[pair[int(kind[1])]] = 1.0
+        elif kind == "rest":
+            mask[pair[0]] = 0.0
+            mask[pair[1]] = 0.0
+        self.cw = self.cw * mask
+
+    def __call__(self, ev, X, Y=None):
+        lv = (self.wl * ev).sum() if self.kind in ("full", "vals", "rest") else 0.0
+        if self.kind == "vals":
+            return lv
+        Y = X if Y is None else Y
+        return lv + (self.cw * torch.einsum("ai,ab,bi->i", X.conj(), self.W, Y).real).sum()
+
+
+def dense_eigh(A, M):
+    """differentiable dense reference (Cholesky-reduced torch.linalg.eigh): E (n,), X (n,n) with X^H M X = I"""
+    if M is None:
+        return torch.linalg.eigh(A)
+    L = torch.linalg.cholesky(M)
+    Y = torch.linalg.solve_triangular(L, A, upper=False)
+    A2 = R.herm(torch.linalg.solve_triangular(L, R.ct(Y), upper=False))
+    E, Yv = torch.linalg.eigh(A2)
+    return E, torch.linalg.solve_triangular(R.ct(L), Yv, upper=True)
+
+
 def run_degen_opts(case):
     """the documented degeneracy thresholds: eigenvalues i, j are treated as degenerate iff |e_i - e_j| < degen_atol + degen_rtol*|e|,
     None means the default (eps**0.6 / eps**0.4), 0.0 means "no special treatment".  A pair with a tiny but non-zero gap that the
     caller's thresholds do NOT cover must get the full perturbation-theory gradient (with its 1/gap terms) of a loss that
-    distinguishes the two eigenvectors."""
-    from xitorch.linalg import symeig
+    distinguishes the two eigenvectors - in the first backward pass and in every later one through the same graph (further rows of
+    a Jacobian with retain_graph=True, passes after a graph-recording pass, the double backward of a second-order gradient).
+    Reference: the same losses on a dense differentiable decomposition (torch.linalg.eigh, Cholesky-reduced with M; torch.linalg.svd),
+    first and second order by autograd (all eigenvalues are simple)."""
+    from xitorch.linalg import symeig, svd
     import xitorch
     torch.manual_seed(0)
     g = gen.seeded(case["seed"])
+    g2 = gen.seeded(case["seed"] ^ 0x2B5A17C3)
     n, neig, gap = case["n"], case["neig"], float(case["gap"])
-    DTd = torch.float64
-    lam = torch.tensor([1.0, 1.0 + gap] + [2.0 + 0.7 * k for k in range(n - 2)], dtype=DTd)
-    if case["mode"] == "uppest":
-        lam = -lam.flip(0)
-    Q = R.rand_unitary(g, [], n, DTd).to(DTd)
-    A0 = (Q * lam) @ Q.T
-    K = torch.randn((n, n), generator=g, dtype=DTd)
-    P = (0.5 * (A0 + A0.T) + 0.5 * (K - K.T)).requires_grad_()
-    opts = {"zero": {"degen_atol": 0.0, "degen_rtol": 0.0}, "rzero": {"degen_rtol": 0.0}, "azero_rtiny": {"degen_atol": 0.0, "degen_rtol": 1e-12},
-            "tiny": {"degen_atol": 1e-13, "degen_rtol": 1e-12}}[case["opts"]]
-    labels = ["task=degen_opts", "opts=" + case["opts"], "mode=" + case["mode"], "gap=%g" % gap, "neig=%s" % ("n" if neig == n else "<n")]
-    W = torch.randn((n, n), generator=g, dtype=DTd)
-    W = 0.5 * (W + W.T)
-    cw = torch.linspace(1.0, 2.0, neig, dtype=DTd)
-    wl = torch.randn((neig,), generator=g, dtype=DTd)
+    prob, method, hasM = case.get("prob", "eig"), case.get("method", "custom_exacteig"), bool(case.get("M", False))
+    order, rows = int(case.get("order", 1)), list(case.get("rows", []))
+    late = bool(case.get("late")) and order == 2
+    first_graph = order == 2 or bool(case.get("first_graph"))
+    dtype = R.DT[case.get("dtype", "f64")]
+    low = case["mode"] == "lowest"
+    opts = DEGEN_OPTS[case["opts"]]
+    labels = ["task=degen_opts", "opts=" + case["opts"], "mode=" + case["mode"], "gap=%g" % gap, "neig=%s" % ("n" if neig == n else "<n"),
+              "do_prob=%s" % prob, "do_method=%s" % method, "do_M=%s" % hasM, "do_dtype=%s" % case.get("dtype", "f64"), "do_order=%d" % order,
+              "do_passes=%d%s" % (1 + len(rows), "(late)" if late and rows else ""), "do_first_backward=%s" % ("recording" if first_graph else "plain")]
+    base = [1.0, 1.0 + gap] + [2.0 + 0.7 * k for k in range(n - 2)]
+    kw = {"method": method, "bck_options": dict(opts)}
+    if method == "davidson":
+        kw["min_eps"] = 1e-10
+    kappa = 1.0
+    if prob == "eig":
+        lam = torch.tensor(base if low else [-x for x in reversed(base)], dtype=torch.float64)
+        Q = R.rand_unitary(g, [], n, dtype)
+        A0 = R.herm((Q * lam.to(dtype)) @ R.ct(Q))
+        M0 = None
+        if hasM:
+            kappa = float(case.get("mkappa", 2.0))
+            mu = torch.exp(torch.linspace(-0.5, 0.5, n, dtype=torch.float64) * math.log(kappa))
+            Qm = R.rand_unitary(g, [], n, dtype)
+            S = R.herm((Qm * mu.sqrt().to(dtype)) @ R.ct(Qm))
+            M0 = R.herm((Qm * mu.to(dtype)) @ R.ct(Qm))
+            A0 = R.herm(S @ A0 @ S)                        # pencil (A0, M0) has exactly the eigenvalues lam
+        leaves = []
+        for T0 in [A0] + ([M0] if hasM else []):
+            K = gen.randn(g, (n, n), dtype)
+            leaves.append((T0 + 0.5 * (K - R.ct(K))).requires_grad_())       # unconstrained leaf: herm() below removes the anti-Hermitian part
+        names = ["A-leaf"] + (["M-leaf"] if hasM else [])
+        sel = list(range(neig)) if low else list(range(n - neig, n))
+        pair = (0, 1) if low else (neig - 2, neig - 1)
+        evals_sel = [float(lam[i]) for i in sel]
+        wshape = (n, n)
 
-    def lossf(ev, X):
-        return (wl * ev).sum() + (cw * torch.einsum("ai,ab,bi->i", X, W, X)).sum()
-    Aop = xitorch.LinearOperator.m(0.5 * (P + P.T), is_hermitian=True)
-    ev, X = xt_call(symeig, Aop, neig=neig, mode=case["mode"], method="custom_exacteig", bck_options=dict(opts), _where="forward")
-    got, = xt_call(torch.autograd.grad, lossf(ev, X), (P,), _where="backward")
-    # reference: closed-form pull-back on LAPACK eigenpairs, every eigenvalue its own group (the thresholds do not cover the gap)
+        def xi_out(lv):
+            Aop = xitorch.LinearOperator.m(R.herm(lv[0]), is_hermitian=True)
+            Mop = xitorch.LinearOperator.m(R.herm(lv[1]), is_hermitian=True) if hasM else None
+            return symeig(Aop, neig=neig, mode=case["mode"], M=Mop, **kw)
+
+        def ref_out(lv):
+            E, X = dense_eigh(R.herm(lv[0]), R.herm(lv[1]) if hasM else None)
+            return E[sel], X[:, sel]
+        scale = float(lam.abs().max()) * math.sqrt(kappa)
+    else:
+        mm, nn = case["shape"]
+        r = min(mm, nn)                                     # == n
+        sv = base if low else [4.2 - x for x in reversed(base)]          # ascending, > 0; the pair is the lowest / the uppermost two
+        U0 = R.rand_unitary(g, [], mm, dtype)[:, :r]
+        V0 = R.rand_unitary(g, [], nn, dtype)[:, :r]
+        A0 = (U0 * torch.tensor(sv, dtype=torch.float64).to(dtype)) @ R.ct(V0)
+        leaves = [A0.clone().requires_grad_()]
+        names = ["A-leaf"]
+        sel = list(range(neig)) if low else list(range(r - neig, r))
+        pair = (0, 1) if low else (neig - 2, neig - 1)
+        evals_sel = [sv[i] ** 2 for i in sel]               # symeig works on A^H A / A A^H: the thresholds apply to s^2
+        wshape = (mm, nn)
+
+        def xi_out(lv):
+            U, S, Vh = svd(xitorch.LinearOperator.m(lv[0], is_hermitian=False), k=neig, mode=case["mode"], **kw)
+            return S, U, R.ct(Vh)
+
+        def ref_out(lv):
+            U, S, Vh = torch.linalg.svd(lv[0], full_matrices=False)
+            ps = torch.tensor([r - 1 - i for i in sel])       # torch orders descending
+            return S[ps], U[:, ps], R.ct(Vh)[:, ps]
+        scale = max(sv) ** 2
+    # the thresholds must not cover any pair of selected eigenvalues (for svd neither as singular values nor as eigenvalues s^2)
     atol = opts.get("degen_atol", EPS ** 0.6)
     rtol = opts.get("degen_rtol", EPS ** 0.4)
-    if not gap >= 4 * (atol + rtol * 1.5):
+    emax = max(abs(x) for x in evals_sel)
+    gap_e = min(abs(a - b) for i, a in enumerate(evals_sel) for b in evals_sel[i + 1:])
+    if not min(gap_e, gap) >= 4 * (atol + rtol * max(emax, 1.5)):
         return discard("gap_within_threshold", labels)
-    la, Xa = torch.linalg.eigh(0.5 * (P.detach() + P.detach().T))
-    sel = torch.arange(neig) if case["mode"] == "lowest" else torch.arange(n - neig, n)
-    lr = la[sel].clone().requires_grad_()
-    Xr = Xa[:, sel].clone().requires_grad_()
-    G_lam, G_X = torch.autograd.grad(lossf(lr, Xr), (lr, Xr))
-    Abar, _ = R.eig_pullback(la, Xa, sel, torch.eye(neig, dtype=torch.bool), G_lam, G_X)
-    ref = 0.5 * (Abar + Abar.T)
-    sc = float(ref.abs().max())
-    err = float((got - ref).abs().max())
-    # the 1/gap terms amplify the LAPACK mixing error eps/gap of the two eigenvectors: relative accuracy ~ 1e3*eps/gap
-    tol = (1e-6 + 1e4 * EPS / gap) * (1 + sc)
-    if not err <= tol:
-        return violation("degen_threshold", "bck_options=%r, eigenvalue gap %g (not covered by the thresholds): gradient differs from perturbation theory by %.3e "
-                         "(|ref| = %.3e, tol %.3e) - the pair was treated as degenerate" % (opts, gap, err, sc, tol), labels)
-    return ok(labels, nontrivial=sc > 0)
+    loss = PairLoss(g, neig, wshape, dtype, pair)
+    with warnings.catch_warnings(record=True) as wlist:
+        warnings.simplefilter("always")
+        try:
+            outs = xt_call(xi_out, leaves, _where="forward")
+        except XitorchRaised as e:
+            if method == "davidson" and e.kind.startswith(DAVIDSON_BREAKDOWN):
+                return discard("forward_davidson_cholesky_breakdown(C05_finding)", labels)
+            raise
+    if [w for w in wlist if "onverge" in type(w.message).__name__]:
+        return discard("forward_convergence_warning", labels)
+    lx = loss(*outs)
+    got = xt_call(torch.autograd.grad, lx, leaves, create_graph=first_graph, retain_graph=True, allow_unused=True, _where="backward")
+    routs = ref_out(leaves)
+    # the 1/gap terms amplify the mixing error of the two eigenvectors (LAPACK: eps |A| / gap; the backward's shift of the eigenvalue by
+    # 1e-14 max(|e|, 1): 1e-14 max(|e|,1) / gap): relative accuracy 1e4 eps scale / gap, measured ~ 5e2 eps / gap
+    rel1 = 1e-6 + 1e4 * EPS * max(scale, 1.0) * kappa / gap_e
+    info = " [bck_options=%r, %s, method %s, M %s, eigenvalue gap %g is not covered by the thresholds]" % (opts, prob, method, hasM, gap_e)
+
+    def ref_fn(lobj, create_graph=False):
+        gs = torch.autograd.grad(lobj(*routs), leaves, retain_graph=True, create_graph=create_graph, allow_unused=True)
+        return [torch.zeros_like(x) if q is None else q for q, x in zip(gs, leaves)]
+    ref = ref_fn(loss, create_graph=(order == 2))
+    sc = max(maxabs(q) for q in ref)
+    bad, worst = compare(got, ref, names, rel1, "degen_threshold", labels, info + " - a later violation kind than grad1: the pair was treated as degenerate")
+    if bad is not None:
+        return bad
+    labels = labels + [margin_label("do_err1/tol", worst)]
+
+    def mkloss(kind):
+        return PairLoss(g2, neig, wshape, dtype, pair, kind=kind)
+
+    def first_again():
+        return xt_call(torch.autograd.grad, lx, leaves, create_graph=first_graph, retain_graph=True, allow_unused=True, _where="backward_again")
+    if rows and not late:
+        bad, labels = repeated_backward(rows, first_again, got, outs, leaves, names, mkloss, ref_fn, rel1, labels, info)
+        if bad is not None:
+            return bad
+    if order == 1:
+        return ok(labels, nontrivial=sc > 0)
+    C = [gen.randn(g, x.shape, x.dtype) for x in leaves]
+
+    def contract(gs):
+        return sum((c.conj() * q).sum().real for c, q in zip(C, gs) if q is not None)
+    L1 = contract(got)
+    if not (isinstance(L1, torch.Tensor) and L1.requires_grad):
+        return violation("no_second_graph", "create_graph=True produced first-order gradients without a graph", labels)
+    got2 = xt_call(torch.autograd.grad, L1, leaves, allow_unused=True, retain_graph=late, _where="backward2")
+    if late:
+        def second_again():
+            return xt_call(torch.autograd.grad, L1, leaves, allow_unused=True, retain_graph=True, _where="backward2_again")
+        bad, labels = repeated_backward(rows, second_again, got2, outs, leaves, names, mkloss, ref_fn, rel1, labels, info, what="grad2")
+        if bad is not None:
+            return bad
+    ref2 = torch.autograd.grad(contract(ref), leaves, allow_unused=True)
+    ref2 = [torch.zeros_like(x) if q is None else q for q, x in zip(ref2, leaves)]
+    bad, worst = compare(got2, ref2, names, 10 * rel1, "degen_threshold_grad2", labels, info)
+    if bad is not None:
+        return bad
+    return ok(labels + [margin_label("do_err2/tol", worst)], nontrivial=sc > 0)
 
 
 @st.composite
 def degen_opts_st(draw, tier="quick"):
     n = draw(st.integers(3, 5))
-    return {"n": n, "neig": draw(st.sampled_from([2, n])), "mode": draw(st.sampled_from(["lowest", "uppest"])),
+    prob = draw(st.sampled_from(["eig", "eig", "svd"]))
+    method = draw(st.sampled_from(["custom_exacteig", "custom_exacteig", "davidson"]))
+    order = draw(st.sampled_from([1, 1, 2]))
+    rows = [draw(st.sampled_from(PAIR_ROW_KINDS)) for _ in range(draw(st.sampled_from([0, 1, 1, 2, 2, 3])))]
+    case = {"n": n, "neig": draw(st.sampled_from([2, n])), "mode": draw(st.sampled_from(["lowest", "uppest"])),
             "gap": draw(st.sampled_from([2e-8, 1e-7, 3e-7])), "opts": draw(st.sampled_from(["zero", "zero", "rzero", "azero_rtiny", "tiny"])),
+            "prob": prob, "method": method, "order": order, "rows": rows, "late": bool(rows) and order == 2 and draw(st.booleans()),
+            "first_graph": order == 1 and draw(st.sampled_from([True, False, False])),
+            "dtype": "f64" if method == "davidson" else draw(st.sampled_from(["f64", "f64", "c128"])),
             "seed": draw(st.integers(0, 2 ** 31 - 1))}
+    if prob == "eig":
+        case["M"] = draw(st.booleans())
+        case["mkappa"] = draw(st.sampled_from([2.0, 4.0]))
+    else:
+        case["shape"] = draw(st.sampled_from([[n, n], [n, n + 1], [n + 2, n]]))
+    return case
 
 
 def tasks(tier):
@@ -842,5 +1392,5 @@ def tasks(tier):
     return [
         Task("eig", strategy=eig_case_st(tier, known=known), run=run_eig, examples={"quick": 4800, "thorough": 130000}),
         Task("svd", strategy=svd_case_st(tier, known=known), run=run_svd, examples={"quick": 2400, "thorough": 65000}),
-        Task("degen_opts", strategy=degen_opts_st(tier), run=run_degen_opts, examples={"quick": 160, "thorough": 1600}),
+        Task("degen_opts", strategy=degen_opts_st(tier), run=run_degen_opts, examples={"quick": 480, "thorough": 6000}),
     ]
